@@ -105,6 +105,8 @@ def run_c12(it):
     if equal:
         from dtaidistance.util import SeriesContainer
         add("c:dtw_cc.dba[matrix container]", lambda: cdba(SeriesContainer.wrap(np().array(ser))))
+        # the same array handed over as it is (2-D for univariate, 3-D for multivariate series)
+        add("c:dtw_cc.dba[raw array]", lambda: cdba(np().array(ser)))
 
     def nat(layout):
         lib = native.lib("plain")
